@@ -151,7 +151,7 @@ func genC02(c *Ctx) {
 		doubled, _ := crypto.AggregateBLSSignatures(append(append([]crypto.Signature{}, sigs...), sigs[0]))
 		c.Case("share-doubled/"+p, manyLine(doubled, es), manyVerify(doubled, es))
 		// candidate outside G1, malformed, wrong length, identity
-		t := askBytes(fmt.Sprintf("e1 torsion %d", it%3))
+		t := askBytes(fmt.Sprintf("e1 torsion %d", []int{0, 1, 2, 100, 101, 102}[it%6]))
 		bad := askBytes("e1 add " + hx(agg) + " " + hx(t))
 		c.Case("plus-torsion/"+p, manyLine(bad, es), manyVerify(bad, es))
 		fb := flipBit(agg, c.intn(384))
